@@ -1,10 +1,11 @@
 #!/bin/bash
 # intake_seed.sh <id>: after confirm_seed.sh, copies a sub-agent's deliverables into /verif/seeded/<id>
+# (patch, demonstration with whatever files it needs beside it, meta, confirmation log; no build output)
 id=$1
 src=/tmp/seed/$id
 dst=/verif/seeded/$id
 mkdir -p $dst
-cp $src/out/patch.diff $src/out/demo.sh $src/out/meta.json $dst/
+( cd $src/out && find . -type f -size -300k ! -path '*/target/*' ! -name '*.log' ! -name 'Cargo.lock' | while read f; do mkdir -p "$dst/$(dirname "$f")"; cp "$f" "$dst/$f"; done )
 cp $src/confirm.log $dst/
 grep -E "demo_with_rc|demo_without_rc" $dst/confirm.log
 grep -E "^test result" $dst/confirm.log | awk '{p+=$4; f+=$6} END {print "passed", p, "failed", f}'
